@@ -67,6 +67,18 @@ def run(ctx):
                              fc={k: (True, None) for k in exprs.leaves(t) if exprs.kind(k) == "fc"})
             tag3, v3 = evalimpl.outcome(lambda: evalimpl.rc_evaluation(evalcorr.to_lark(t)))
             fx3 = getattr(v3, "format_constraints_expression", None) if tag3 == "ok" else f"raises {v3}"
+            # ... also when the expression arrives as the string a user writes: only the brackets the precedence needs, every operator in a spelling of its own
+            if t[0] != "L" and tag3 == "ok" and fx3 == fx:
+                from vlib.props import c05
+
+                s_min = c05.minimal(t, ctx.rng)
+                tag4, v4 = evalimpl.outcome(lambda: evalimpl.rc_evaluation(s_min))
+                fx4 = getattr(v4, "format_constraints_expression", None) if tag4 == "ok" else f"raises {v4}"
+                if fx4 != fx:
+                    ctx.fail(f"written|{key}|{s_min}", dict(desc, written=s_min), f"the collected expression of the evaluated tree: {fx!r} (reading {want})",
+                             f"requirement_constraint_evaluation({s_min!r}) reports {fx4!r}",
+                             "oracle: the collected expression does not depend on how the source expression is written (spellings, only the necessary brackets)")
+                    continue
             if fx3 != fx:
                 ctx.fail(f"reported|{key}", desc, f"the collected expression of the evaluated tree: {fx!r} (reading {want})", f"requirement_constraint_evaluation reports {fx3!r}",
                          "oracle: requirement_constraint_evaluation reports the collected format-constraint expression, for every requirement outcome")
